@@ -266,8 +266,15 @@ func ReadPatchString(s string) (Diff, error) {
 			i := len(diff) - 1
 			if diff[i].Path.JsonNode().Equals(e.Path.JsonNode()) && canCoalesce(diff[i], e) {
 				diff[i].Remove = append(diff[i].Remove, e.Remove...)
-				// Must be done in reverse order
-				diff[i].Add = append(e.Add, diff[i].Add...)
+				if isAppend(e.Path) {
+					// Values appended one after the other stay in
+					// the order of the ops.
+					diff[i].Add = append(diff[i].Add, e.Add...)
+				} else {
+					// Values inserted one after the other at the
+					// same index end up in reverse order.
+					diff[i].Add = append(e.Add, diff[i].Add...)
+				}
 			} else {
 				diff = append(diff, e)
 				afterIndexes = append(afterIndexes, afterContextIndex(before, e))
@@ -316,6 +323,16 @@ func checkAfterContext(diff Diff, afterIndexes []int) error {
 		}
 	}
 	return nil
+}
+
+// isAppend reports whether the path ends in the append index (the "-"
+// token of a JSON Pointer).
+func isAppend(p Path) bool {
+	if len(p) == 0 {
+		return false
+	}
+	index, ok := p[len(p)-1].(PathIndex)
+	return ok && index == -1
 }
 
 // canCoalesce reports whether the diff element e, read from the ops
